@@ -570,7 +570,7 @@ SUBCHECKS = [
         "roundtrip",
         oracle_roundtrip,
         strategy=lambda tier: GP.case(tier),
-        budget={"quick": 40, "thorough": 1500},
+        budget={"quick": 100, "thorough": 1500},
         rule=RULE + "; every case is encoded and decoded with all 5 normalisations x 2 tempo-curve methods",
         known=KNOWN_ROUNDTRIP,
         floors={"chord-matched": 0.2, "tempo-not-constant": 0.2, "grace-note-matched": 0.03, "short-duration(<75ms)": 0.1,
@@ -580,7 +580,7 @@ SUBCHECKS = [
         "matched_table",
         oracle_table,
         strategy=lambda tier: GP.case(tier),
-        budget={"quick": 40, "thorough": 1500},
+        budget={"quick": 100, "thorough": 1500},
         rule=RULE + "; to_matched_score with objects and with note arrays, get_matched_notes on the note arrays",
         known=KNOWN_TABLE,
         floors={"chord-matched": 0.2, "match-with-missing-performance-id": 0.03, "match-with-missing-score-id": 0.03, "deletion": 0.1, "insertion": 0.05},
@@ -589,7 +589,7 @@ SUBCHECKS = [
         "time_maps",
         oracle_maps,
         strategy=lambda tier: GP.case(tier),
-        budget={"quick": 40, "thorough": 1500},
+        budget={"quick": 100, "thorough": 1500},
         rule=RULE + "; both maps, with and without ornaments, objects and note arrays, at every matched onset and at the midpoints",
         known=KNOWN_MAPS,
         floors={"chord-with-onset-deviations": 0.1, "tempo-not-constant": 0.2},
